@@ -68,6 +68,7 @@ pub fn run(name: &str, raw: &[u8]) -> Option<u32> {
         "builder_types" => builder::builder_types(&arr(raw)),
         "parse_header" => misc::parse_header(&arr(raw)),
         "string_pack" => misc::string_pack(&arr(raw)),
+        "string_pack_utf8" => misc::string_pack_utf8::<5>(&arr(raw)),
         "words_view" => misc::words_view(&arr(raw)),
         "parse_literal" => misc::parse_literal(&arr(raw)),
         "storage_u8" => storage::storage_u8(&arr(raw)),
